@@ -144,13 +144,25 @@ static unsigned long long cb_log[4096]; static size_t cb_n;
 static void cb_record(void *e) { if (cb_n < 4096) cb_log[cb_n++] = VAL(e); }
 static void o_cb(void) { O_LIST("cb"); for (size_t i = 0; i < cb_n; i++) o_item(cb_log[i]); o_end(); }
 
+/* Comparator results keep their SIGN and vary their MAGNITUDE call by call (1, 7, 1000000, 256, INT_MAX, 2, 65536,
+   128): the documented contract of every cmp callback is "<0, 0, >0", so a library that compares the result with
+   == 1 / == -1, narrows it to char/short or does arithmetic on it misbehaves on some call.  The model only sees the
+   sign.  The counter is reset with the history, so replays are exact. */
+static unsigned verif_mag_ctr;
+static int verif_mag(int sign) {
+    static const int m[8] = {1, 7, 1000000, 256, 2147483647, 2, 65536, 128};
+    if (sign == 0) return 0;
+    int k = m[verif_mag_ctr++ & 7];
+    return sign > 0 ? k : -k;
+}
+
 /* the shim provides these */
 static void do_op(Cmd *c);       /* executes one op, writes obs and phys sections via o() */
 static void shim_reset(void);    /* forget all session objects (their blocks were released by the ledger) */
 static void ledger_reset(void) {
     for (size_t i = 0; i < L_conf.cnt; i++) if (!pool_owns(L_conf.b[i].p)) __real_free(L_conf.b[i].p);
     for (size_t i = 0; i < L_libc.cnt; i++) __real_free(L_libc.b[i].p);
-    L_conf.cnt = L_libc.cnt = 0; ledger_errors = 0; ledger_msg[0] = 0;
+    L_conf.cnt = L_libc.cnt = 0; ledger_errors = 0; ledger_msg[0] = 0; verif_mag_ctr = 0;
 }
 
 /* default_mode: the session object was built with the library's default constructor, i.e. on the
